@@ -349,4 +349,12 @@ type ssaSets struct {
 	Writes  []string `json:"writes"`
 	Dynamic []string `json:"dynamic_call_sites"`
 	Error   string   `json:"error"`
+	// G7 inventories
+	MapRanges []struct {
+		Func string `json:"func"`
+		Ord  int    `json:"ord"`
+		Hash string `json:"hash"`
+		Head string `json:"head"`
+	} `json:"map_ranges"`
+	Nondet []string `json:"nondet_sources"`
 }
